@@ -58,17 +58,17 @@ Definition rep_ok (C : list name) (e : oexpr) : bool :=
   match e with ORep x => fail_clean C x | _ => true end.
 
 Definition rule_in_H (extras : bool) (r : orule) : bool :=
-  negb (is_fixed (oname r)) &&                                                       (* 11b *)
+  (* 11b (a user rule named like a hard-coded built-in) is no longer excluded: since /repo fix 76a77f3 the VM looks the
+     user's rules up first, as the generated module does *)
   negb (is_special_name (oname r) && match oty r with RNonAtomic => true | _ => false end) &&   (* 11a *)
   subexprs_ok (if extras then tag_ok else plain_ok) (oexpr_of r) &&                   (* 13 *)
   (if atomic_compiled r then subexprs_ok (rep_ok cleanset) (oexpr_of r) else true).  (* row 3 *)
 
 Definition in_H (extras : bool) : bool := consistent cleanset && forallb (rule_in_H extras) G.
 
-(* which clause fails first: 0 = in H *)
+(* which clause fails first: 0 = in H (1 was the shadowed built-ins, fixed in /repo) *)
 Definition why_not_H (extras : bool) : nat :=
-  if negb (forallb (fun r => negb (is_fixed (oname r))) G) then 1
-  else if negb (forallb (fun r => negb (is_special_name (oname r) && match oty r with RNonAtomic => true | _ => false end)) G) then 2
+  if negb (forallb (fun r => negb (is_special_name (oname r) && match oty r with RNonAtomic => true | _ => false end)) G) then 2
   else if negb (forallb (fun r => subexprs_ok (if extras then tag_ok else plain_ok) (oexpr_of r)) G) then 3
   else if negb (in_H extras) then 4 else 0.
 End H.
